@@ -48,6 +48,9 @@ type CircuitBreaker struct {
 	lastFailureTime time.Time
 	lastSuccessTime time.Time
 	nextAttempt     time.Time
+	// halfOpenPeriod numbers the half-open periods: a request admitted as a trial carries the
+	// number of its period, and only the trials of the current period decide how it ends
+	halfOpenPeriod uint64
 	// state changes recorded under the lock, delivered to onStateChange after it is released
 	pendingChanges []stateChange
 }
@@ -111,20 +114,20 @@ func NewCircuitBreaker(settings Settings) *CircuitBreaker {
 
 // Execute executes the given function with circuit breaker protection
 func (cb *CircuitBreaker) Execute(fn func() error) error {
-	err := cb.beforeRequest()
+	trialOf, err := cb.beforeRequest()
 	if err != nil {
 		return err
 	}
 
 	defer func() {
 		if r := recover(); r != nil {
-			cb.afterRequest(false)
+			cb.afterRequest(trialOf, false)
 			panic(r)
 		}
 	}()
 
 	err = fn()
-	cb.afterRequest(err == nil)
+	cb.afterRequest(trialOf, err == nil)
 	return err
 }
 
@@ -133,8 +136,9 @@ func (cb *CircuitBreaker) Call(fn func() error) error {
 	return cb.Execute(fn)
 }
 
-// beforeRequest checks if the request can proceed with optimized locking
-func (cb *CircuitBreaker) beforeRequest() error {
+// beforeRequest checks if the request can proceed with optimized locking. For a request
+// admitted as a half-open trial it returns the number of its half-open period (0 otherwise).
+func (cb *CircuitBreaker) beforeRequest() (uint64, error) {
 	now := time.Now()
 
 	// Fast path: read-only check for most common case (StateClosed)
@@ -156,7 +160,7 @@ func (cb *CircuitBreaker) beforeRequest() error {
 			}
 			cb.mutex.Unlock()
 		}
-		return nil
+		return 0, nil
 	}
 
 	// For Open state, check if we can transition to HalfOpen
@@ -169,14 +173,16 @@ func (cb *CircuitBreaker) beforeRequest() error {
 			// Double-check state hasn't changed
 			if cb.state == StateOpen && cb.nextAttempt.Before(now) {
 				cb.setState(StateHalfOpen)
+				cb.halfOpenPeriod++
 				cb.requestCount = 0
 				cb.successCount = 0
 			}
 			err := cb.admitLocked()
+			trialOf := cb.trialPeriodLocked()
 			cb.unlockAndNotify()
-			return err
+			return trialOf, err
 		}
-		return ErrCircuitBreakerOpen
+		return 0, ErrCircuitBreakerOpen
 	}
 
 	// HalfOpen state: check request limit
@@ -185,16 +191,26 @@ func (cb *CircuitBreaker) beforeRequest() error {
 		cb.mutex.RUnlock()
 
 		if atLimit {
-			return ErrTooManyRequests
+			return 0, ErrTooManyRequests
 		}
 		cb.mutex.Lock()
 		err := cb.admitLocked()
+		trialOf := cb.trialPeriodLocked()
 		cb.mutex.Unlock()
-		return err
+		return trialOf, err
 	}
 
 	cb.mutex.RUnlock()
-	return ErrCircuitBreakerOpen
+	return 0, ErrCircuitBreakerOpen
+}
+
+// trialPeriodLocked returns the number of the current half-open period, or 0 when the breaker
+// is not half-open (a request admitted then is not a trial). Must be called with the lock held.
+func (cb *CircuitBreaker) trialPeriodLocked() uint64 {
+	if cb.state != StateHalfOpen {
+		return 0
+	}
+	return cb.halfOpenPeriod
 }
 
 // admitLocked decides admission for the current state and, in half-open state, counts
@@ -216,11 +232,19 @@ func (cb *CircuitBreaker) admitLocked() error {
 }
 
 // afterRequest updates the circuit breaker state after a request
-func (cb *CircuitBreaker) afterRequest(success bool) {
+func (cb *CircuitBreaker) afterRequest(trialOf uint64, success bool) {
 	cb.mutex.Lock()
 	defer cb.unlockAndNotify()
 
 	now := time.Now()
+
+	// Only the trial requests of the current half-open period decide how it ends. A request
+	// that was admitted earlier - while the breaker was still closed, or as a trial of an
+	// earlier half-open period - and ends now says nothing about whether the backend has
+	// recovered: its success must not close the breaker
+	if cb.state == StateHalfOpen && trialOf != cb.halfOpenPeriod {
+		return
+	}
 
 	if success {
 		cb.lastSuccessTime = now
